@@ -617,7 +617,11 @@ def random_histories(rng, count, max_len, steps_n, max_vals=3):
 def c03(tier, seed):
     c = Check("C03", tier, seed)
     binary = vlib.build_harness()
-    r = c.mc("MC_Pool", "MC_Pool_q" if tier == "quick" else "MC_Pool_t", workers=8, timeout=1500)
+    # scenarios: every history of <= 4 operations; the thorough tier additionally model-checks histories of 5
+    # operations over longer arrays (14 million ledger states) without emitting them
+    r = c.mc("MC_Pool", "MC_Pool_q", workers=8, timeout=1500)
+    if tier != "quick":
+        c.mc("MC_Pool", "MC_Pool_t", workers=8, timeout=3000, xmx="12g")
     hists = [h for h in r["scenarios"] if any("recv" in st for st in h["steps"])]
     rng = random.Random(seed)
     if tier == "quick" and len(hists) > 2500:
@@ -625,8 +629,12 @@ def c03(tier, seed):
         hists.sort(key=lambda h: -sum(1 for st in h["steps"] if "recv" in st))
         hists = hists[:1500] + rng.sample(hists[1500:], 1000)
     scns = [{"case": "hist", "steps": h["steps"], "d": {"kind": "tlc-history", "steps": h["steps"]}} for h in hists]
-    c.cov["bounds"] = {"exhaustive": "histories of <= %d operations over <= 2 values of length <= %d" % ((4, 2) if tier == "quick" else (5, 3))}
-    c.conform(binary, with_etys(scns, ["tk"] if tier == "quick" else ["tk", "zst", "plain"]), "tlc-histories")
+    c.cov["bounds"] = {"exhaustive model": "histories of <= %d operations over <= 2 values of length <= %d" % ((4, 2) if tier == "quick" else (5, 3)),
+                       "histories executed": "%d TLC histories of <= 4 operations%s" % (len(hists), " (sampled)" if tier == "quick" else " (all)")}
+    c.conform(binary, with_etys(scns, ["tk"]), "tlc-histories")
+    if tier != "quick":
+        sub = rng.sample(scns, min(len(scns), 6000))
+        c.conform(binary, with_etys(sub, ["zst", "plain"]), "tlc-histories-zst-plain")
     # longer chained histories: TLC simulation of the same model, then the harness's own seeded driver
     sim = c.mc("MC_Pool", "MC_Pool_sim", workers=1, extra=["-simulate", "num=%d" % (60 if tier == "quick" else 600), "-depth", "200", "-seed", str(seed)])
     scns = [{"case": "sim", "steps": h["steps"], "d": {"kind": "tlc-simulation", "steps": h["steps"]}} for h in sim["scenarios"]]
